@@ -514,7 +514,12 @@ def _expansions(args):
     while k > 0 and args[k - 1].default is not None:
         k -= 1
     every = {types_[:i] for i in range(k, n + 1)}
-    return every, {types_[:i] for i in range(k, n)}
+    omitted = {types_[:i] for i in range(k, n)}
+    if k < n:
+        # the MATLAB wrapper writes an omitted default out as a literal at the call site, so the
+        # reduced call has the full shape again, with an expression of another arithmetic type
+        omitted.add(types_)
+    return every, omitted
 
 
 def _ambiguous_with_defaults(args, earlier):
